@@ -152,9 +152,20 @@ let parse_config (s : string) : config =
 
 let replay () =
   let st = ref (Some (init2 (parse_config ""))) in
+  (* the finer system of Client/Rendezvous.v beside the canonical replay (see coq/extract/C09/driver.ml) *)
+  let shadow : xstate option ref = ref None in
+  let shadow_after : xstate option ref = ref None in
   iter_lines (fun l ->
     match split_tab l with
-    | "B" :: _ :: cfg :: _ -> st := Some (init2 (parse_config cfg))
+    | "B" :: _ :: cfg :: _ -> st := Some (init2 (parse_config cfg)); shadow := None; shadow_after := None
+    | "A" :: idx :: n :: "commit rx" :: _ ->
+      (match !st with
+       | None -> Printf.printf "M\t%s\t%s\tREJECTED-EARLIER\n" idx n
+       | Some s ->
+         (match step2 s (L1 (LStep (ARx, Z0))), xstep (plain s) (L1 (LStep (ARx, Z0))) with
+          | None, Some x when x.committed && x.cur = s -> shadow := Some x; Printf.printf "M\t%s\t%s\tcommitted\n" idx n
+          | Some _, _ -> Printf.printf "M\t%s\t%s\tREJECT:the-receiver-listens(no-commit)\n" idx n; st := None
+          | _, _ -> Printf.printf "M\t%s\t%s\tREJECT:not-a-send\n" idx n; st := None))
     | "A" :: idx :: n :: lbl :: _ when String.length lbl > 8 && String.sub lbl 0 8 = "stutter " ->
       (* configuration wire=1: WriteMsg returns and the sender reaches its "written" yield: no model step, the
          actor must be in the state "written, not yet returned" *)
@@ -175,7 +186,24 @@ let replay () =
           | Some lab ->
             (match step2 s lab with
              | None -> Printf.printf "M\t%s\t%s\tREJECT:not-enabled(rx@%s)\n" idx n (rpoint s.base.rx); st := None
-             | Some s' -> Printf.printf "M\t%s\t%s\t%s\n" idx n (project s lab s'); st := Some s')))
+             | Some s' ->
+               let is_rx = (match lab with L1 (LStep (ARx, _)) -> true | _ -> false) in
+               let ok () = Printf.printf "M\t%s\t%s\t%s\n" idx n (project s lab s'); st := Some s' in
+               (match !shadow, !shadow_after with
+                | _, Some x' when is_rx ->
+                  shadow_after := None;
+                  if x'.cur = s' then ok ()
+                  else (Printf.printf "M\t%s\t%s\tREJECT:finer-system-differs\n" idx n; st := None)
+                | _, Some x' ->
+                  (match xstep x' lab with
+                   | Some x'' -> shadow_after := Some x''; ok ()
+                   | None -> Printf.printf "M\t%s\t%s\tREJECT:finer-system-refuses\n" idx n; st := None)
+                | Some x, None ->
+                  (match xstep x lab with
+                   | Some x' when not x'.committed -> shadow := None; shadow_after := Some x'; ok ()
+                   | Some x' -> shadow := Some x'; ok ()
+                   | None -> Printf.printf "M\t%s\t%s\tREJECT:finer-system-refuses\n" idx n; st := None)
+                | None, None -> ok ()))))
     | "F" :: idx :: _ ->
       (match !st with
        | Some s ->
